@@ -129,6 +129,12 @@ class ParsedContract(object):
                     if k.arg == 'when':
                         when = k.value
                 self.loop(call.args[0]).body_raises.append((call.args[1], when))
+            elif kind == 'loopvar_in':
+                tgt = ast.literal_eval(call.args[0])
+                k = ast.literal_eval(call.args[1])
+                ls = self.foreign.setdefault(tgt, {}).setdefault(k, LoopSpec())
+                ls.shapes[ast.literal_eval(call.args[2])] = eval(
+                    compile(ast.Expression(call.args[3]), '<shape>', 'eval'), cdef.fn.__globals__)
             elif kind in ('invariant_in', 'hint_in'):
                 tgt = ast.literal_eval(call.args[0])
                 k = ast.literal_eval(call.args[1])
